@@ -65,7 +65,7 @@ func ptrField(v ssa.Value) bool {
 
 // aliasesOf: results #0 of calls to validators that return their receiver denote the receiver itself.
 func (fa *fileAnalysis) aliasesOf(fn *ssa.Function) func(string) string {
-	d := an.D()
+	d := &an.Desc{MaxDepth: 48}
 	type al struct{ from, to string }
 	var as []al
 	for _, call := range an.AllCalls(fn) {
@@ -100,7 +100,7 @@ func (fa *fileAnalysis) aliasesOf(fn *ssa.Function) func(string) string {
 }
 
 func (fa *fileAnalysis) engine(fn *ssa.Function) *an.Facts {
-	raw := an.D()
+	raw := &an.Desc{MaxDepth: 48}
 	canon := fa.aliasesOf(fn)
 	fa.canon[fn] = canon
 	d := descFn(func(v ssa.Value) string { return canon(raw.Of(v)) })
@@ -293,7 +293,7 @@ func analyseFilePkg(c *core.Ctx) *fileAnalysis {
 			storeSet := map[string]bool{}
 			an.Instrs(fn, func(in ssa.Instruction) {
 				if st, ok := in.(*ssa.Store); ok && an.FieldOfAddr(st.Addr) != nil {
-					if p := fa.canon[fn](an.D().Of(st.Addr)); strings.HasPrefix(p, recv+".") {
+					if p := fa.canon[fn]((&an.Desc{MaxDepth: 48}).Of(st.Addr)); strings.HasPrefix(p, recv+".") {
 						storeSet[p] = true
 					}
 				}
@@ -333,6 +333,7 @@ type posSummary struct {
 
 // positiveOnSuccess summarises result index res of fn: on every nil-error return it is positive.
 func positiveOnSuccess(c *core.Ctx, fn *ssa.Function, res int, depth int) posSummary {
+	fn = delegateTarget(fn)
 	if fn == nil || fn.Blocks == nil || depth <= 0 || !core.InModule(fn) {
 		return posSummary{why: "not a module function with a body"}
 	}
@@ -677,7 +678,7 @@ func c14(c *core.Ctx, r *core.Report) {
 		pr := c.MustFn("internal/trigger/rate", "ParseRate")
 		s := positiveOnSuccess(c, pr, 1, 4)
 		r.Check(s.kind == posYes, "ParseRate#unit-positive", c.Pos(pr.Pos()), "unit > 0 on every successful return ("+s.why+")", "ParseRate can succeed with a non-positive unit ("+s.why+"): a zero unit becomes a zero tick interval (time.NewTicker panics) or an infinite peak rate")
-		nd := c.MustFn("internal/trigger/api", "NewDistribution")
+		nd := delegateTarget(c.MustFn("internal/trigger/api", "NewDistribution"))
 		s = positiveOnSuccess(c, nd, 0, 4)
 		r.Check(s.kind == posYes, "NewDistribution#interval-positive", c.Pos(nd.Pos()), "interval > 0 on every successful return ("+s.why+")", "NewDistribution can succeed with a non-positive tick interval ("+s.why+")")
 		// every NewIterationWorker call site
@@ -829,7 +830,7 @@ func c14(c *core.Ctx, r *core.Report) {
 	var fa *fileAnalysis
 	rule(r, "C14.R3", "config-file package: every dereference of a pointer read from a YAML-populated field is preceded on all paths by a non-nil fact", func() {
 		fa = analyseFilePkg(c)
-		d := an.D()
+		d := &an.Desc{MaxDepth: 48} // the same depth as the facts were computed with: paths are compared as text
 		nDeref, nReq := 0, 0
 		type req struct {
 			fn   *ssa.Function
@@ -1248,7 +1249,34 @@ func c14(c *core.Ctx, r *core.Report) {
 					}
 				}
 				countOK := atoi != nil && len(pr.Params) > 0 && (dependsOn(atoi.Call.Args[0], pr.Params[0]) || dependsOnFV(an.FV{V: atoi.Call.Args[0], F: rateFV.F}, pr.Params[0]))
-				if pd := callBehind(unitV, "time", "ParseDuration"); pd != nil {
+				pd := callBehind(unitV, "time", "ParseDuration")
+				if pd == nil {
+					// the unit is parsed by a helper with more than one successful form (`parseUnit`: days, or whatever
+					// time.ParseDuration accepts): the helper's call stands for the parse
+					hv := unitV
+					if ex, isEx := hv.(*ssa.Extract); isEx {
+						hv = ex.Tuple
+					}
+					hc, isCall := hv.(*ssa.Call)
+					if !isCall && unitFV.F != nil && unitFV.F.Parent != nil {
+						// resolved into the helper along its one return with a nil error: the helper's call site
+						hc, isCall = unitFV.F.Site.(*ssa.Call)
+					}
+					if isCall {
+						if h := an.Callee(hc); h != nil && core.InModule(h) && h.Blocks != nil {
+							parses := false
+							for _, hr := range an.Returns(h) {
+								if len(hr.Results) > 0 && callBehind(an.Strip(hr.Results[0]), "time", "ParseDuration") != nil {
+									parses = true
+								}
+							}
+							if parses && len(hc.Call.Args) > 0 {
+								pd = hc
+							}
+						}
+					}
+				}
+				if pd != nil {
 					slash++
 					pdArg := an.FV{V: pd.Call.Args[0], F: unitFV.F}
 					fromInput := dependsOn(pd.Call.Args[0], pr.Params[0])
